@@ -42,6 +42,7 @@ type c11Case struct {
 	StartID int             `json:"startid"`
 	Frames  []frameJ        `json:"frames"`
 	Class   string          `json:"class"`
+	Huge    int             `json:"huge"`
 }
 
 func vp8Decode(b []byte) Ev { return vp8DecodeInto(&codecs.VP8Packet{}, b) }
@@ -83,6 +84,8 @@ func runC11(raw json.RawMessage, w *Writer) {
 		u := vp8DecodeInto(usedP, in)
 		w.Emit(Ev{"ev": "decode", "bytes": c.Bytes, "dlen": c.Dlen, "want": c.Want, "wantok": c.WantOk, "res": d["res"], "f": d["f"], "out": d["out"], "head": d["head"],
 			"used": Ev{"res": u["res"], "f": u["f"], "out": u["out"]}})
+	case "huge":
+		w.Emit(hugeVP8(c.Huge, c.Mtu))
 	case "payload":
 		p := &codecs.VP8Payloader{EnablePictureID: c.PidOn}
 		if !codecs.VerifSetVP8PictureID(p, uint16(c.StartID)) && c.StartID != 0 {
